@@ -12,6 +12,7 @@ From SF Require Import Unsized.Proofs.EncodeParse Unsized.Proofs.Mem Unsized.Pro
   Unsized.Proofs.GenOps2 Unsized.Proofs.Init Unsized.Proofs.UInsert Unsized.Proofs.URemove Unsized.Proofs.History
   Unsized.Proofs.History2 Unsized.Proofs.NotifyInside2 Unsized.Proofs.SetData Unsized.Proofs.Keyed Unsized.Proofs.ExecTie
   Unsized.Proofs.ExecTie2 Unsized.Proofs.History3.
+From SF Require Import Unsized.Proofs.EnumFacts.
 
 Arguments Z.add : simpl never.
 Arguments Z.sub : simpl never.
